@@ -297,6 +297,15 @@ class Extract(Function):
         super().__init__("EXTRACT", date_part, alias=alias)
         self.field = field
 
+    def nodes_(self):
+        yield from super().nodes_()
+        yield from self.field.nodes_()
+
+    @builder
+    def replace_table(self, current_table, new_table):  # type:ignore[override]
+        self.args = [param.replace_table(current_table, new_table) for param in self.args]
+        self.field = self.field.replace_table(current_table, new_table)
+
     def get_special_params_sql(self, ctx: SqlContext) -> str:
         return "FROM {field}".format(field=self.field.get_sql(ctx.copy(with_alias=False)))
 
